@@ -185,7 +185,7 @@ class CompImpl:
                 raise AttributeError(f"computable {c}")
             oo, n, _ = self.comps[c]
             v = getattr(self.inst[oo], f"a{n}")
-            self.trace.append(("hread", hid, c, v))
+            self.trace.append(("hread", hid, c, v, self.store()))
 
     # operations ------------------------------------------------------------------------------------
     def fmt(self, head):
@@ -544,6 +544,13 @@ def oracle_comp(sc, obs):
         k = ev[0]
         if k == "hread":
             hread_seen = True
+            if not writes and len(ev) > 4:
+                # G7 repaired: a handler notified by an Observable reads what the function gives for the values as they
+                # are now (the new value is stored, every dependent is dirty before the handler runs)
+                want = spec_eval(comps, ev[4], ev[2])
+                if want not in ("raise", "exc") and want != ev[3]:
+                    bad.append(f"stale-in-handler: handler {ev[1]} read Computable {ev[2]} = {ev[3]} while notified, "
+                               f"its function evaluated then gives {want}")
         if k == "op":
             w = ev[1].split()
             if w[0] == "define":
